@@ -1331,6 +1331,28 @@ def c01_merge(ctx):
                     out.fail('C01-MERGE/use/%s' % key_of(b), '%s does not hand the runner\'s per-thread vectors, as returned, to the merge: %s' % (key_of(b), t_str(c['args'][0])[:160]), b.where(c['line']))
                 elif not ok2:
                     out.fail('C01-MERGE/use/%s/target' % key_of(b), '%s merges into %s, not into its output parameter' % (key_of(b), t_str(tgt)[:100]), b.where(c['line']))
+    # ... and the merge is the ONLY way the per-thread vectors of an ordered collect reach the output: from the runner call of such a
+    # body no normal return is reachable without a merge call (a "single round, just append the blocks in the order of their first
+    # keys" shortcut is wrong as soon as one worker holds two non-adjacent chunks)
+    wrappers = set(getattr(ctx.slots, 'runner_wrappers', []) or [])
+    for b in F.fn_bodies():
+        if b.is_closure() or b.name in ents or not any(callee_of(t) in ents for _, t in b.calls()):
+            continue
+        cfg = ctx.cfg(b)
+        merge_blocks = {bb for bb, t in b.calls() if callee_of(t) in ents}
+        for bb, t in b.calls():
+            if callee_of(t) in ctx.slots.runner_entries or callee_of(t) in wrappers:
+                tgt = t.get('target')
+                if tgt is None:
+                    continue
+                succ = {x: [y for y in cfg.succ[x] if not b.blocks[y].get('cleanup')] for x in cfg.succ}
+                seen_ = cfg.reach(tgt, avoid=merge_blocks, succ=succ)
+                esc = [x for x in cfg.returns if x in seen_]
+                out.inst('C01-MERGE/only/%s' % key_of(b), not esc, 'every path from the runner call to a return passes the merge')
+                if esc:
+                    others = sorted({res(t2) for bb2, t2 in b.calls() if bb2 in seen_ and t2.get('local') and callee_of(t2) not in ents})
+                    out.fail('C01-MERGE/only/%s' % key_of(b), '%s can return without handing the per-thread vectors to the k-way merge (a path from the runner call to a return avoids it%s): the pieces of different workers interleave in input order, only the merge restores it' % (
+                        key_of(b), ', through ' + ', '.join(others[:2]) if others else ''), b.where(t.get('line')))
     out.floor('merge_functions', len(ms), 1 if not ctx.fixture else 0)
     out.floor('merge_uses', n_use, 2 if not ctx.fixture else 0)
     return out
